@@ -133,6 +133,28 @@ func init() {
 		o := fundedOwner(w)
 		return plain(w.h["balance"], "transfer", atoms{"KEY": o}, o.ScriptHash(), w.sample.owner.ScriptHash(), int64(10), nil)
 	})
+	// boundary value: amount 0 must need the same witnesses (seeded change C03-zero-amount-skips-witness)
+	reg("balance.transfer/4/zero", func(w *world, k int) *fixture {
+		o := fundedOwner(w)
+		return plain(w.h["balance"], "transfer", atoms{"KEY": o}, o.ScriptHash(), w.sample.owner.ScriptHash(), int64(0), nil)
+	})
+	reg("balance.transferX/4/zero", func(w *world, k int) *fixture {
+		o := fundedOwner(w)
+		return plain(w.h["balance"], "transferX", atoms{"KEY": o}, o.ScriptHash(), w.sample.owner.ScriptHash(), int64(0), []byte("x"))
+	})
+	reg("balance.lock/5/zero", func(w *world, k int) *fixture {
+		o := fundedOwner(w)
+		la := w.newAcc("lockacc0", 0)
+		return plain(w.h["balance"], "lock", atoms{"KEY": o}, []byte("tx0"), o.ScriptHash(), la.ScriptHash(), int64(0), int64(100))
+	})
+	reg("balance.mint/3/zero", func(w *world, k int) *fixture {
+		o := w.newAcc("mintee0", 0)
+		return plain(w.h["balance"], "mint", atoms{"KEY": o}, o.ScriptHash(), int64(0), []byte("m"))
+	})
+	reg("balance.burn/3/zero", func(w *world, k int) *fixture {
+		o := fundedOwner(w)
+		return plain(w.h["balance"], "burn", atoms{"KEY": o}, o.ScriptHash(), int64(0), []byte("b"))
+	})
 	reg("balance.transfer/4/via", func(w *world, k int) *fixture {
 		w.must(w.h["balance"], w.alpha(), "mint", w.kc, int64(1000), []byte("m"))
 		fx := plain(w.h["balance"], "transfer", atoms{"KEY": w.newAcc("bystander", 10_0000_0000)}, w.kc, w.sample.owner.ScriptHash(), int64(10), nil)
